@@ -1378,16 +1378,26 @@ class _FuncEval:
         q = p.fork()
         gens = []
         cid = self.nid("C")
-        for g in generators:
-            it = self.ev(g.iter, q)
-            pat = ast.unparse(g.target)
-            self._bind_pattern(g.target, ("elem", it, cid), q)
-            conds = tuple(self.ev(c, q) for c in g.ifs)
-            gens.append((pat, it, conds))
-        if kind == "dict":
-            e = (self.ev(elt[0], q), self.ev(elt[1], q))
-        else:
-            e = self.ev(elt, q)
+        outer_scope = self.scope
+        try:
+            for i, g in enumerate(generators):
+                it = self.ev(g.iter, q)
+                pat = ast.unparse(g.target)
+                self._bind_pattern(g.target, ("elem", it, cid), q)
+                # (type inference inside the comprehension sees the variables it binds)
+                try:
+                    self.scope = Scope(self.ix, outer_scope.func, outer_scope.module, parent=outer_scope,
+                                       comp=list(generators[:i + 1]))
+                except Exception:  # noqa: BLE001
+                    self.scope = outer_scope
+                conds = tuple(self.ev(c, q) for c in g.ifs)
+                gens.append((pat, it, conds))
+            if kind == "dict":
+                e = (self.ev(elt[0], q), self.ev(elt[1], q))
+            else:
+                e = self.ev(elt, q)
+        finally:
+            self.scope = outer_scope
         return ("comp", kind, e, tuple(gens))
 
     def _bind_pattern(self, target, v, q):
